@@ -19,7 +19,7 @@ use http::{Method, StatusCode, Response, HeaderMap, HeaderName, HV, RespView};
 use http::header::{self, HeaderValue};
 use ent::*;
 use body::{Body, BodyStream};
-broadcast use {fmtw::vec_len_bound, fmtw::vec_ranges_len_bound};
+broadcast use {fmtw::vec_len_bound, fmtw::vec_ranges_len_bound, hm::lemma_hmap_push, hm::lemma_hmap_empty};
 
 //@fn src/lib.rs :: fn as_u64 props=C01 rules=R24
 fn as_u64(len: usize) -> (r: u64)
@@ -206,6 +206,160 @@ spec fn serve_ranges<D, E>(ent: &EntityRef<D, E>, method: &Method, req: Map<Head
     }
 }
 
+
+// ======================= per-property projections of the oracle =======================
+// `serve_post` above is the complete decision; the clauses below restate it property by property (order-insensitive
+// header view) so that a failing clause names the property it breaks.
+pub mod hm {
+    use vstd::prelude::*;
+    use crate::http::{HeaderName, HV};
+    /// Order-insensitive view of a header list (name -> value; a later value for the same name wins).
+    pub open spec fn hmap(h: Seq<(HeaderName, HV)>) -> Map<HeaderName, HV> decreases h.len() {
+        if h.len() == 0 { Map::empty() } else { hmap(h.drop_last()).insert(h.last().0, h.last().1) }
+    }
+    pub broadcast proof fn lemma_hmap_push(s: Seq<(HeaderName, HV)>, x: (HeaderName, HV))
+        ensures #[trigger] hmap(s.push(x)) == hmap(s).insert(x.0, x.1)
+    { assert(s.push(x).drop_last() =~= s); }
+    pub broadcast proof fn lemma_hmap_empty()
+        ensures #[trigger] hmap(Seq::<(HeaderName, HV)>::empty()) == Map::<HeaderName, HV>::empty()
+    {}
+}
+use hm::hmap;
+spec fn o_view<D, E>(out: ServeInner<D, E>) -> RespView { match out { ServeInner::Simple(r) => r.v@, ServeInner::Multipart { res, .. } => res.v@ } }
+spec fn o_status<D, E>(out: ServeInner<D, E>) -> int { o_view(out).status }
+spec fn o_hmap<D, E>(out: ServeInner<D, E>) -> Map<HeaderName, HV> { hmap(o_view(out).hdrs) }
+spec fn is_gh(method: &Method) -> bool { method.k == 0 || method.k == 1 }
+/// Conditional processing lets the request through to range selection.
+spec fn proceeds<D, E>(ent: &EntityRef<D, E>, method: &Method, req: Map<HeaderName, HeaderValue>) -> bool {
+    is_gh(method) && pmh(e_etag(ent), req, e_lm(ent)) == Ok::<(bool, bool), &'static str>((false, false))
+}
+spec fn common_map<D, E>(ent: &EntityRef<D, E>) -> Map<HeaderName, HV> { hmap(common_hdrs(ent)) }
+
+/// C13: any other method gets 405 + Allow and reads nothing; the status is always one of the eight.
+spec fn proj_c13<D, E>(ent: &EntityRef<D, E>, method: &Method, req: Map<HeaderName, HeaderValue>, out: ServeInner<D, E>, calls: Seq<(u64, u64)>) -> bool {
+    &&& (!is_gh(method) ==> o_status(out) == 405 && o_hmap(out) =~= map![HeaderName::ALLOW => HV::Static("get, head"@)]
+            && body_once(out, Some("This resource only supports GET and HEAD."@)) && calls.len() == 0)
+    &&& (o_status(out) == 200 || o_status(out) == 206 || o_status(out) == 304 || o_status(out) == 400 || o_status(out) == 405
+            || o_status(out) == 412 || o_status(out) == 413 || o_status(out) == 416)
+}
+/// C04: 400 on unparseable validators, else 412 exactly when the precondition fails, else 304 exactly when not modified.
+spec fn proj_c04<D, E>(ent: &EntityRef<D, E>, method: &Method, req: Map<HeaderName, HeaderValue>, out: ServeInner<D, E>, calls: Seq<(u64, u64)>) -> bool {
+    is_gh(method) ==> match pmh(e_etag(ent), req, e_lm(ent)) {
+        Err(s) => o_status(out) == 400 && body_once(out, Some(s@)) && calls.len() == 0,
+        Ok((pf, nm)) => (o_status(out) == 412) == pf && (o_status(out) == 304) == (!pf && nm) && o_status(out) != 400 && o_status(out) != 405
+            && (pf ==> body_once(out, Some("Precondition failed"@)) && calls.len() == 0) && (!pf && nm ==> body_once(out, None) && calls.len() == 0),
+    }
+}
+/// Status / Content-Range / multipart-or-200 decision for the resolved ranges (kind, v) - shared by C03 and C05.
+spec fn range_outcome<D, E>(ent: &EntityRef<D, E>, method: &Method, out: ServeInner<D, E>, kind: int, v: Seq<Range<u64>>, ent_hdrs: Seq<u8>) -> bool {
+    let len = e_len(ent);
+    let hm = o_hmap(out);
+    if kind == 0 { o_status(out) == 200 && !hm.dom().contains(HeaderName::CONTENT_RANGE) }
+    else if kind == 1 { o_status(out) == 416 && hm.dom().contains(HeaderName::CONTENT_RANGE) && hm[HeaderName::CONTENT_RANGE] == HV::Fmt("bytes */{}"@, seq![len]) }
+    else if v.len() == 1 {
+        o_status(out) == 206 && hm.dom().contains(HeaderName::CONTENT_RANGE)
+        && hm[HeaderName::CONTENT_RANGE] == HV::Fmt("bytes {}-{}/{}"@, seq![v[0].start, (v[0].end - 1) as u64, len])
+        && !hm.dom().contains(HeaderName::CONTENT_TYPE)
+    } else if est_sum(v, v.len() as int) < len {
+        // multipart/byteranges of exactly those ranges in request order (413 only if its exact length overflows u64)
+        if total_len(v, len, ent_hdrs, v.len() as int) + 9 > u64::MAX { o_status(out) == 413 }
+        else { o_status(out) == 206 && !hm.dom().contains(HeaderName::CONTENT_RANGE) && hm.dom().contains(HeaderName::CONTENT_TYPE)
+               && hm[HeaderName::CONTENT_TYPE] == HV::Static("multipart/byteranges; boundary=B"@)
+               && (method.k == 0 ==> (out matches ServeInner::Multipart { ranges, .. } && ranges@ == v)) }
+    } else { o_status(out) == 200 && !hm.dom().contains(HeaderName::CONTENT_RANGE) }
+}
+spec fn ent_hdrs_for<D, E>(ent: &EntityRef<D, E>, req: Map<HeaderName, HeaderValue>) -> Seq<u8> {
+    if !req.dom().contains(HeaderName::IF_RANGE) { render(e_hdr_entries(ent), e_hdr_entries(ent).len() as int) } else { Seq::<u8>::empty() }
+}
+/// C03: without If-Range, the Range header is resolved as RFC 7233 prescribes (rr_view = range::parse's result, unit `range`).
+spec fn proj_c03<D, E>(ent: &EntityRef<D, E>, method: &Method, req: Map<HeaderName, HeaderValue>, out: ServeInner<D, E>, calls: Seq<(u64, u64)>) -> bool {
+    (proceeds(ent, method, req) && !req.dom().contains(HeaderName::IF_RANGE)) ==> {
+        let hdr: Option<&HeaderValue> = if req.dom().contains(HeaderName::RANGE) { Some(&req[HeaderName::RANGE]) } else { None };
+        range_outcome(ent, method, out, range::rr_view(hdr, e_len(ent)).0, range::rr_view(hdr, e_len(ent)).1, ent_hdrs_for(ent, req))
+    }
+}
+/// C05: with If-Range, the Range header counts only against a byte-identical strong ETag; otherwise the full 200.
+spec fn proj_c05<D, E>(ent: &EntityRef<D, E>, method: &Method, req: Map<HeaderName, HeaderValue>, out: ServeInner<D, E>, calls: Seq<(u64, u64)>) -> bool {
+    (proceeds(ent, method, req) && req.dom().contains(HeaderName::IF_RANGE)) ==> {
+        let eff = effective_range(ent, req);
+        &&& range_outcome(ent, method, out, range::rr_view(eff, e_len(ent)).0, range::rr_view(eff, e_len(ent)).1, ent_hdrs_for(ent, req))
+        &&& (eff.is_none() ==> o_status(out) == 200 && !o_hmap(out).dom().contains(HeaderName::CONTENT_RANGE))
+        &&& (o_status(out) == 206 ==> (out matches ServeInner::Simple(r) ==> !r.extra.entity_hdrs@))
+    }
+}
+/// C14: validators and entity metadata.
+spec fn proj_c14<D, E>(ent: &EntityRef<D, E>, method: &Method, req: Map<HeaderName, HeaderValue>, out: ServeInner<D, E>, calls: Seq<(u64, u64)>) -> bool {
+    let st = o_status(out);
+    &&& ((st == 200 || st == 206 || st == 304 || st == 412 || st == 416) ==>
+            forall|k: HeaderName| #[trigger] common_map(ent).dom().contains(k) ==> o_hmap(out).dom().contains(k) && o_hmap(out)[k] == common_map(ent)[k])
+    &&& (out matches ServeInner::Simple(r) ==> r.extra.entity_hdrs@ == (st == 200 || (st == 206 && !req.dom().contains(HeaderName::IF_RANGE) && !o_hmap(out).dom().contains(HeaderName::CONTENT_TYPE))))
+    &&& (out matches ServeInner::Multipart { part_headers, ranges, .. } ==> multipart_parts_ok(part_headers@, ranges@, e_len(ent), ent_hdrs_for(ent, req)))
+}
+/// The length a body announces through its own accounting (its exact size hint, unit `streams`).
+spec fn announced<D, E>(out: ServeInner<D, E>) -> Option<u64> {
+    match out {
+        ServeInner::Simple(r) => match r.body.0 { BodyStream::ExactLen(s) => Some(s.remaining), _ => None },
+        ServeInner::Multipart { len, .. } => Some(len),
+    }
+}
+/// C01: every 200/206 carries a Content-Length, equal to what the body will account for; the others carry none and a Once body.
+spec fn proj_c01<D, E>(ent: &EntityRef<D, E>, method: &Method, req: Map<HeaderName, HeaderValue>, out: ServeInner<D, E>, calls: Seq<(u64, u64)>) -> bool {
+    let st = o_status(out);
+    let hm = o_hmap(out);
+    &&& ((st == 200 || st == 206) ==> hm.dom().contains(HeaderName::CONTENT_LENGTH))
+    &&& ((st == 200 || st == 206) && method.k == 0 ==> (announced(out) matches Some(n) && hm[HeaderName::CONTENT_LENGTH] == HV::Fmt("{}"@, seq![n])))
+    &&& (!(st == 200 || st == 206) ==> !hm.dom().contains(HeaderName::CONTENT_LENGTH) && (out matches ServeInner::Simple(r) && r.body.0 is Once))
+    &&& (out matches ServeInner::Multipart { part_headers, ranges, len, .. } ==> len as int == rest(part_headers@, ranges@, 0)
+            && part_headers@.len() == ranges@.len() && range::wf_ranges(ranges@, e_len(ent)))
+}
+/// C02: the body is the entity stream for exactly the bytes the status and Content-Range name.
+spec fn proj_c02<D, E>(ent: &EntityRef<D, E>, method: &Method, req: Map<HeaderName, HeaderValue>, out: ServeInner<D, E>, calls: Seq<(u64, u64)>) -> bool {
+    let st = o_status(out);
+    let hm = o_hmap(out);
+    let len = e_len(ent);
+    method.k == 0 ==> {
+        &&& (st == 200 ==> body_exact(out, ent, 0, len) && calls =~= seq![(0u64, len)])
+        &&& (st == 206 && out is Simple ==> calls.len() == 1 && calls[0].0 < calls[0].1 && calls[0].1 <= len
+                && body_exact(out, ent, calls[0].0, calls[0].1)
+                && hm.dom().contains(HeaderName::CONTENT_RANGE) && hm[HeaderName::CONTENT_RANGE] == HV::Fmt("bytes {}-{}/{}"@, seq![calls[0].0, (calls[0].1 - 1) as u64, len]))
+        &&& (!(st == 200 || (st == 206 && out is Simple)) ==> calls.len() == 0)
+    }
+}
+/// C06: a multi-range 206 is multipart/byteranges with exactly the part headers, ranges in request order and exact length.
+spec fn proj_c06<D, E>(ent: &EntityRef<D, E>, method: &Method, req: Map<HeaderName, HeaderValue>, out: ServeInner<D, E>, calls: Seq<(u64, u64)>) -> bool {
+    let hm = o_hmap(out);
+    let len = e_len(ent);
+    &&& (out matches ServeInner::Multipart { res, part_headers, ranges, len: t } ==> {
+            &&& multipart_parts_ok(part_headers@, ranges@, len, ent_hdrs_for(ent, req))
+            &&& t as int == total_len(ranges@, len, ent_hdrs_for(ent, req), ranges@.len() as int) + 9
+            &&& res.v@.status == 206 && ranges@.len() >= 2
+            &&& hm.dom().contains(HeaderName::CONTENT_TYPE) && hm[HeaderName::CONTENT_TYPE] == HV::Static("multipart/byteranges; boundary=B"@)
+            &&& hm.dom().contains(HeaderName::CONTENT_LENGTH) && hm[HeaderName::CONTENT_LENGTH] == HV::Fmt("{}"@, seq![t])
+            &&& !hm.dom().contains(HeaderName::CONTENT_RANGE)
+            &&& (proceeds(ent, method, req) ==> ranges@ == range::rr_view(effective_range(ent, req), len).1)
+        })
+    // HEAD of a multipart response announces the same exact length
+    &&& ((o_status(out) == 206 && method.k == 1 && hm.dom().contains(HeaderName::CONTENT_TYPE) && proceeds(ent, method, req)) ==> {
+            let v = range::rr_view(effective_range(ent, req), len).1;
+            hm.dom().contains(HeaderName::CONTENT_LENGTH) && hm[HeaderName::CONTENT_LENGTH] == HV::Fmt("{}"@, seq![(total_len(v, len, ent_hdrs_for(ent, req), v.len() as int) + 9) as u64])
+        })
+}
+/// C15: HEAD never reads the entity and has an empty body.
+spec fn proj_c15<D, E>(ent: &EntityRef<D, E>, method: &Method, req: Map<HeaderName, HeaderValue>, out: ServeInner<D, E>, calls: Seq<(u64, u64)>) -> bool {
+    method.k == 1 ==> {
+        &&& calls.len() == 0
+        &&& out is Simple
+        &&& ((o_status(out) == 200 || o_status(out) == 206 || o_status(out) == 304 || o_status(out) == 416) ==> body_once(out, None))
+    }
+}
+/// Status and headers obey the decision oracle (all header-producing clauses together).  C15's mirror clause is
+/// relational: "HEAD conforms whenever GET conforms" - the HEAD instance is reported for C15 only if the GET instance holds.
+spec fn conforms<D, E>(ent: &EntityRef<D, E>, method: &Method, req: Map<HeaderName, HeaderValue>, out: ServeInner<D, E>, calls: Seq<(u64, u64)>) -> bool {
+    &&& proj_c04(ent, method, req, out, calls) && proj_c03(ent, method, req, out, calls) && proj_c05(ent, method, req, out, calls)
+    &&& proj_c14(ent, method, req, out, calls) && proj_c06(ent, method, req, out, calls)
+    &&& ((o_status(out) == 200 || o_status(out) == 206) ==> o_hmap(out).dom().contains(HeaderName::CONTENT_LENGTH))
+}
+
 //@fn src/serving.rs :: fn prepare_multipart props=C01,C06,C13 implicit=C13 rules=R10,R14,R20,R22,R23
 #[verifier::loop_isolation(false)]
 fn prepare_multipart(mut res: http::response::Builder, ranges: &[Range<u64>], len: u64, include_entity_headers: Option<http::header::HeaderMap>)
@@ -235,7 +389,18 @@ fn prepare_multipart(mut res: http::response::Builder, ranges: &[Range<u64>], le
 fn serve_inner<D, E>(ent: &EntityRef<D, E>, method: &Method, req_hdrs: &HeaderMap, calls: &mut Ghost<Seq<(u64, u64)>>) -> (out: ServeInner<D, E>)
     requires req_hdrs.req_wf(), e_etag(ent) matches Some(e) ==> e.wf(), old(calls)@ == Seq::<(u64, u64)>::empty(),
     ensures
-        /*@C01,C02,C03,C04,C05,C06,C13,C14,C15 #serve_decision*/ serve_post(ent, method, req_hdrs.m@, out, final(calls)@),
+        /*@C00 #serve_decision_master*/ serve_post(ent, method, req_hdrs.m@, out, final(calls)@),
+        /*@C13 #total_and_405*/ proj_c13(ent, method, req_hdrs.m@, out, final(calls)@),
+        /*@C04 #conditional_precedence*/ proj_c04(ent, method, req_hdrs.m@, out, final(calls)@),
+        /*@C03 #range_resolution_outcome*/ proj_c03(ent, method, req_hdrs.m@, out, final(calls)@),
+        /*@C05 #if_range_gate*/ proj_c05(ent, method, req_hdrs.m@, out, final(calls)@),
+        /*@C14 #validators_and_entity_headers*/ proj_c14(ent, method, req_hdrs.m@, out, final(calls)@),
+        /*@C01 #content_length_matches_body*/ proj_c01(ent, method, req_hdrs.m@, out, final(calls)@),
+        /*@C02 #body_is_named_entity_bytes*/ proj_c02(ent, method, req_hdrs.m@, out, final(calls)@),
+        /*@C06 #multipart_shape*/ proj_c06(ent, method, req_hdrs.m@, out, final(calls)@),
+        /*@C15 #head_reads_nothing*/ proj_c15(ent, method, req_hdrs.m@, out, final(calls)@),
+        /*@C00 #get_conforms*/ method.k == 0 ==> conforms(ent, method, req_hdrs.m@, out, final(calls)@),
+        /*@C15 #head_conforms unless=get_conforms*/ method.k == 1 ==> conforms(ent, method, req_hdrs.m@, out, final(calls)@),
 //@body
 //@ at_start: proof { reveal_strlit("{}"); reveal_strlit("bytes */{}"); reveal_strlit("bytes {}-{}/{}"); }
 //@ before "let (res, part_headers, len) =": proof { assert(eh_of(each_part_hdrs) == (if !req_hdrs.m@.dom().contains(HeaderName::IF_RANGE) { render(e_hdr_entries(ent), e_hdr_entries(ent).len() as int) } else { Seq::<u8>::empty() })); }
@@ -254,7 +419,18 @@ spec fn as_inner<D, E>(resp: Response<Body<D, E>>) -> ServeInner<D, E> {
 fn serve<D, E>(entity: EntityRef<D, E>, req: &http::Request, calls: &mut Ghost<Seq<(u64, u64)>>) -> (resp: Response<Body<D, E>>)
     requires req.headers.req_wf(), e_etag(&entity) matches Some(e) ==> e.wf(), old(calls)@ == Seq::<(u64, u64)>::empty(),
     ensures
-        /*@C01,C02,C03,C04,C05,C06,C13,C14,C15 #serve_is_serve_inner*/ serve_post(&entity, &req.method, req.headers.m@, as_inner(resp), final(calls)@),
+        /*@C00 #serve_is_serve_inner_master*/ serve_post(&entity, &req.method, req.headers.m@, as_inner(resp), final(calls)@),
+        /*@C13 #serve_total_and_405*/ proj_c13(&entity, &req.method, req.headers.m@, as_inner(resp), final(calls)@),
+        /*@C04 #serve_conditional_precedence*/ proj_c04(&entity, &req.method, req.headers.m@, as_inner(resp), final(calls)@),
+        /*@C03 #serve_range_resolution_outcome*/ proj_c03(&entity, &req.method, req.headers.m@, as_inner(resp), final(calls)@),
+        /*@C05 #serve_if_range_gate*/ proj_c05(&entity, &req.method, req.headers.m@, as_inner(resp), final(calls)@),
+        /*@C14 #serve_validators_and_entity_headers*/ proj_c14(&entity, &req.method, req.headers.m@, as_inner(resp), final(calls)@),
+        /*@C01 #serve_content_length_matches_body*/ proj_c01(&entity, &req.method, req.headers.m@, as_inner(resp), final(calls)@),
+        /*@C02 #serve_body_is_named_entity_bytes*/ proj_c02(&entity, &req.method, req.headers.m@, as_inner(resp), final(calls)@),
+        /*@C06 #serve_multipart_shape*/ proj_c06(&entity, &req.method, req.headers.m@, as_inner(resp), final(calls)@),
+        /*@C15 #serve_head_reads_nothing*/ proj_c15(&entity, &req.method, req.headers.m@, as_inner(resp), final(calls)@),
+        /*@C00 #serve_get_conforms*/ req.method.k == 0 ==> conforms(&entity, &req.method, req.headers.m@, as_inner(resp), final(calls)@),
+        /*@C15 #serve_head_conforms unless=serve_get_conforms*/ req.method.k == 1 ==> conforms(&entity, &req.method, req.headers.m@, as_inner(resp), final(calls)@),
         /*@C01,C06 #multipart_body_owns_entity*/ resp.body.0 matches BodyStream::Multipart(ms) ==> ms.entity == entity,
 //@body
 //@end
